@@ -14,6 +14,7 @@ cfg_if::cfg_if! {
 #[derive(Debug, Default)]
 struct InnerTimer {
     start: Option<Instant>,
+    suspended: bool,
     elapsed: Duration,
     subtimers: SubTimersMap,
     #[cfg(feature = "verif")]
@@ -23,6 +24,7 @@ struct InnerTimer {
 impl InnerTimer {
     fn reset(&mut self) {
         self.start = None;
+        self.suspended = false;
         self.elapsed = Duration::ZERO;
         self.subtimers.clear();
     }
@@ -44,6 +46,7 @@ impl InnerTimer {
         //save current elapsed and suspend
         //subtimers if this timer appears active
         if let Some(instant) = self.start {
+            self.suspended = true;
             self.elapsed += instant.elapsed();
             #[cfg(feature = "verif")]
             (self.elapsed += crate::verif_hooks::vclock_since(self.vstart));
@@ -55,6 +58,7 @@ impl InnerTimer {
         //resume if this timer appears active.
         //just refresh start time to now.
         if self.start.is_some() {
+            self.suspended = false;
             self.start = Some(Instant::now());
             #[cfg(feature = "verif")]
             (self.vstart = crate::verif_hooks::vclock_now());
@@ -63,7 +67,12 @@ impl InnerTimer {
     }
 
     fn elapsed(&self) -> Duration {
-        self.elapsed
+        // a running timer reports the time accumulated so
+        // far plus the interval that is still in progress
+        match self.start {
+            Some(instant) if !self.suspended => self.elapsed + instant.elapsed(),
+            _ => self.elapsed,
+        }
     }
 }
 
